@@ -1,7 +1,8 @@
 """C01 — setup yields a consistent environment with no residue of superseded versions.
 
 Implementation: Eups(readCache=False, keep, max_depth); selectVRO(tag, versionName, inexact_version);
-eups.app.setup(...) — one forked child per request, histories of requests on one environment.
+eups.app.setup(...), or the whole command line setupcmd.EupsSetup(argv).run() — one forked child per request, histories
+of requests on one environment.
 Model: lean/EupsModel/Model/Setup.lean through the driver handler "c01".
 Oracle (ii): clauses (a) <P>_DIR is the declared directory, (b) own table contributions present, (c) no element under
 the directory of a version that is not the recorded one, (4) explicit top-level version, (5) closure — all computed
@@ -15,6 +16,8 @@ RULE = ("case = product graph (3-7 names x 1-3 versions, DAG by name order, requ
         "cycles across versions) + prior environment + history of 1-5 requests (setup/unsetup, keep, max-depth, just, "
         "explicit/bare/relational top-level version, -t beta, --inexact per history); dependency lines with their own "
         "-t (15%) / -k (8%), multi-element envPrepend values, directory-less products, a second stack on 30% of graphs; "
+        "30% of the requests go through the command line entry point setupcmd.EupsSetup(argv).run() (-u -k -j/-S -t -E -Z "
+        "and the printed command text), the others call eups.app.setup; the command list is compared string by string; "
         "a case is non-trivial when some "
         "request changes the environment; distinct = distinct (graph, prior, history) digests")
 TRUSTED = ["harness/lib_setup.py: generator, canonicaliser (element lists split at the variable's delimiter, $S for the "
@@ -62,6 +65,8 @@ def run(ctx):
     ok = stats.get("ok", 0)
     if done >= 300 and (ok < done * 0.3 or stats.get("switched", 0) < ok * 0.05 or stats.get("c01_prior_ok", 0) < ok * 0.5):
         raise common.InfraError("degenerate distribution: %r of %d requests" % (stats, done))
+    if done >= 300 and ctx.histogram.get("entry=setupcmd", 0) < done * 0.15:
+        raise common.InfraError("too few requests through the command line entry point: %r of %d" % (ctx.histogram.get("entry=setupcmd", 0), done))
     if done >= 300 and (stats.get("sh_compared", 0) < ok * 0.6 or stats.get("sh_quoted", 0) < 20):
         raise common.InfraError("command lists compared string by string on too few requests: %r of %d" % (stats, done))
 
